@@ -72,10 +72,11 @@ def run(ctx, rep):
         bounds += list(explicit.values())
         rep.check("C20.const", "MM:SS:FF fields: frames < 75, seconds < 60, minutes unbounded", sorted(bounds) == ["const:60", "const:75"], loc_of(b), str(bounds),
                   "the field range checks of MM:SS:FF are %s (expected exactly ff < 75 and ss < 60; positions above 99 minutes are legal)" % sorted(bounds))
-        cm = [t for _, t in b.calls() if re.search(r"<impl u64>::checked_mul$", callee_name(t))]
-        good = len(cm) == 1 and backward_slice(b, cm[0]["a"][1])["consts"] >= {75, 60}
+        cm = [(bb, t) for bb in [b] + F.closures_of(b) for _, t in bb.calls() if re.search(r"<impl u64>::checked_mul$", callee_name(t))]
+        mm_ = [1 for bb, t in cm if backward_slice(bb, t["a"][1])["consts"] >= {75, 60} or 4500 in backward_slice(bb, t["a"][1])["consts"]]
+        good = len(mm_) == 1
         rep.check("C20.const", "minutes are scaled by 75 x 60 frames", good, loc_of(b))
-        cls = F.closures_of(b)
+        cls = [b] + F.closures_of(b)
         c_all, _ = consts_in(F, cls)
         rep.check("C20.const", "seconds are scaled by 75 and frames by 588 samples", {75, 588} <= c_all, loc_of(b), str(sorted(c_all)))
 
@@ -101,16 +102,18 @@ def run(ctx, rep):
                         k = op_int(rv["b"]) if op_int(rv["b"]) is not None else op_int(rv["a"])
                         o = rv["a"] if op_int(rv["b"]) is not None else rv["b"]
                         cs = capture_source(F, c, o) if op_place(o) else None
-                        if cs and cs[1] is not None and cs[0].path == b.path:
+                        if cs and cs[1] is not None and cs[0].path == b.path and k is not None:
                             scaled.append((bound_of(cs[1]["l"]), k))
                     if rv["r"] == "bin" and rv["op"].startswith("Add"):
                         for o in (rv["a"], rv["b"]):
                             if op_place(o) is None:
                                 continue
                             rp = root_place(c, o)
-                            if rp is not None and rp["l"] == 1:
+                            if rp is not None and (rp["l"] == 1 or c is b):
+                                if any(x.startswith("Mul") for x in backward_slice(c, o)["ops"]):
+                                    continue    # the scaled product, not a plain field
                                 cs = capture_source(F, c, o)
-                                if cs and cs[1] is not None and cs[0].path == b.path:
+                                if cs and cs[1] is not None and cs[0].path == b.path and bound_of(cs[1]["l"]) is not None:
                                     plain.append(bound_of(cs[1]["l"]))
         rep.check("C20.const", "the field limited to < 60 (seconds) is multiplied by 75, the field limited to < 75 (frames) is added unscaled", scaled == [(60, 75)] and plain == [75], loc_of(b), "scaled %s plain %s" % (scaled, plain),
                   "MM:SS:FF conversion: scaled fields %s (bound, factor), unscaled %s - expected seconds (< 60) x 75 and frames (< 75) x 1" % (scaled, plain))
